@@ -228,6 +228,7 @@ def run(col, configs, tier):
         # back-ends that only exist under a feature: their own structural rules (compact Grisu)
         guarded(col, X.rule_grisu_boundaries, facts)
         guarded(col, X.rule_grisu_weed, facts)
+        guarded(col, X.rule_int_pow_exact, facts)
         from rules import dispatch
         guarded(col, dispatch.rule_dispatch_table, facts)
         from rules import syntax
